@@ -662,6 +662,10 @@ func shouldRunOnCurrentPlatform(platforms []*ast.Platform) bool {
 		return true
 	}
 	for _, p := range platforms {
+		// An empty list entry ("platforms: [~]") decodes to a nil platform
+		if p == nil {
+			continue
+		}
 		if (p.OS == "" || p.OS == runtime.GOOS) && (p.Arch == "" || p.Arch == runtime.GOARCH) {
 			return true
 		}
